@@ -78,9 +78,11 @@ pub fn extract_fs(ctx: &mut Ctx) {
         let fname = |rng: &mut rand_chacha::ChaCha8Rng| ["a", "b.txt", "d/x.txt", "d/e/y", "l", "l/x.txt", "d", "h", "k/z"][rng.gen_range(0..9)].to_string();
         let k = rng.gen_range(1..6);
         let mut es: Vec<XE> = vec![];
-        let scenario = if case < 10 { case } else { rng.gen_range(0..14) }; // the first ten cases are the witnesses of the (now repaired) escapes and of links carrying permissions / times
-        let keep_perm = scenario == 5 || scenario == 9 || (scenario > 9 && rng.gen_bool(0.3));
-        let keep_time = scenario == 6 || scenario == 7 || (scenario > 9 && rng.gen_bool(0.4));
+        let scenario = if case < 12 { case } else { rng.gen_range(0..16) };
+        // a third of the runs extract into the current directory without --out-dir (the base of every check is then empty)
+        let no_out_dir = case == 11 || (case >= 12 && case % 3 == 0); // the first twelve cases are the witnesses of the (now repaired) escapes and of links carrying permissions / times
+        let keep_perm = scenario == 5 || scenario == 9 || (scenario > 11 && rng.gen_bool(0.3));
+        let keep_time = scenario == 6 || scenario == 7 || (scenario > 11 && rng.gen_bool(0.4));
         for i in 0..k {
             let e = match (scenario, i) {
                 (0, 0) => XE { name: "l".into(), kind: 2, content: format!("{root}/outside").into_bytes(), perm: None, time: None },          // absolute link to outside dir
@@ -96,12 +98,20 @@ pub fn extract_fs(ctx: &mut Ctx) {
                 // a directory entry (then a file in it) where a link to a directory (8) / a directory with its own mode (9) already is
                 (8, 0) | (9, 0) => XE { name: "d".into(), kind: 1, content: vec![], perm: Some(0o755), time: None },
                 (8, 1) | (9, 1) => XE { name: "d/f.txt".into(), kind: 0, content: b"payload".to_vec(), perm: None, time: None },
+                // a name used as a directory first, then replaced by a link (--overwrite), then used as a parent again
+                (10, 0) => XE { name: "a/x.txt".into(), kind: 0, content: b"first".to_vec(), perm: None, time: None },
+                (10, 1) => XE { name: "a".into(), kind: 2, content: b"..".to_vec(), perm: None, time: None },
+                (10, 2) => XE { name: "a/pwned.txt".into(), kind: 0, content: b"pwn".to_vec(), perm: None, time: None },
+                // a hard link whose source climbs out, extracted into the current directory (no --out-dir), then a file of that name
+                (11, 0) => XE { name: "h".into(), kind: 3, content: b"../outside/secret".to_vec(), perm: None, time: None },
+                (11, 1) => XE { name: "h".into(), kind: 0, content: b"replaced by the archive".to_vec(), perm: None, time: None },
                 (5, 0) => XE { name: "l".into(), kind: 2, content: b"../outside/secret".to_vec(), perm: Some(0o777), time: None },  // link entry carrying a permission
                 _ => {
                     let kind = [0u8, 0, 0, 1, 2, 3][rng.gen_range(0..6)];
+                    // (the empty path string itself — no --out-dir together with an empty name — is not modelled: stat("") is ENOENT)
                     // names that sanitise to the empty name (the destination is the output directory itself) for files and
                     // directories; for link kinds the trailing-slash behaviour of symlink(2)/link(2) on `out/` is not modelled
-                    let name = match rng.gen_range(0..9) { 0 => format!("../{}", fname(&mut rng)), 1 => format!("/{}", fname(&mut rng)), 2 if kind <= 1 => ["/", "", "..", "./."][rng.gen_range(0..4)].to_string(), _ => fname(&mut rng) };
+                    let name = match rng.gen_range(0..9) { 0 => format!("../{}", fname(&mut rng)), 1 => format!("/{}", fname(&mut rng)), 2 if kind <= 1 && !no_out_dir => ["/", "", "..", "./."][rng.gen_range(0..4)].to_string(), _ => fname(&mut rng) };
                     let content = match kind {
                         0 => format!("content-{i}").into_bytes(),
                         1 => vec![],
@@ -114,7 +124,7 @@ pub fn extract_fs(ctx: &mut Ctx) {
             es.push(e);
         }
         // pre-existing objects at some destinations
-        let overwrite = scenario != 8 && scenario != 9 && rng.gen_bool(0.4);
+        let overwrite = scenario == 10 || scenario == 11 || (scenario != 8 && scenario != 9 && rng.gen_bool(0.4));
         if scenario == 8 {
             let _ = std::os::unix::fs::symlink("../outside", sbx.path("out/d"));
         } else if scenario == 9 {
@@ -149,11 +159,13 @@ pub fn extract_fs(ctx: &mut Ctx) {
         let before = snapshot(&sbx.root);
         let dir_time = |p: &std::path::Path| -> i64 { use std::os::unix::fs::MetadataExt; std::fs::metadata(p).map(|m| m.mtime() * 1_000_000_000 + m.mtime_nsec()).unwrap_or(0) };
         let outside_dir_before = dir_time(&sbx.path("outside"));
-        let mut args: Vec<&str> = vec!["--quiet", "extract", "a.pna", "--out-dir", "out"];
+        let mut args: Vec<&str> = if no_out_dir { vec!["--quiet", "extract", "../a.pna"] } else { vec!["--quiet", "extract", "a.pna", "--out-dir", "out"] };
         if overwrite { args.push("--overwrite"); }
         if keep_perm { args.push("--keep-permission"); }
         if keep_time { args.push("--keep-timestamp"); }
-        let r = run_pna(&sbx, &sbx.root, &args, None, 60, &[]);
+        ctx.count(if no_out_dir { "base:cwd" } else { "base:--out-dir" });
+        let run_dir = if no_out_dir { sbx.path("out") } else { sbx.root.clone() };
+        let r = run_pna(&sbx, &run_dir, &args, None, 60, &[]);
         let mut after = snapshot(&sbx.root);
         after.retain(|p, _| p != "tmp" && !p.starts_with("tmp/"));
         let mut before_m = before.clone();
@@ -213,6 +225,6 @@ pub fn extract_fs(ctx: &mut Ctx) {
         // ---- model correspondence: full post-state of the sandbox
         let es_wire = sanitized.iter().map(|e| format!("{},{},{}", hexw(e.name.as_bytes()), e.kind, hexw(&e.content))).collect::<Vec<_>>().join(";");
         let res = if r.ok() { "ok" } else { "err" };
-        ctx.case(json!({"scenario":scenario,"overwrite":overwrite,"n":es.len()}), format!("extract {} {} {} {} {}", overwrite as u8, hexw(root.as_bytes()), hexw(b"out"), fs_wire(&root, &before_m), es_wire), format!("{res} {}", dump(&after)), true);
+        ctx.case(json!({"scenario":scenario,"overwrite":overwrite,"n":es.len()}), if no_out_dir { format!("extract {} {} - {} {} {}", overwrite as u8, hexw(format!("{root}/out").as_bytes()), fs_wire(&root, &before_m), es_wire, hexw(root.as_bytes())) } else { format!("extract {} {} {} {} {}", overwrite as u8, hexw(root.as_bytes()), hexw(b"out"), fs_wire(&root, &before_m), es_wire) }, format!("{res} {}", dump(&after)), true);
     }
 }
